@@ -227,6 +227,26 @@ def h_transform(E, shape):
     E.prove(okd, "C04.restore_bound_duals")
     check_snapshots(E, snaps2, "C11.start_point_unchanged")
     check_snapshots(E, snaps, "C11.caller_owned_unchanged")
+    # a point of the internal box is handed to the user's callbacks as a point of the USER's box
+    # (the bounds are scaled by exact powers of two, so the order is preserved)
+    lbi, ubi = items(tp.var_lb), items(tp.var_ub)
+    xb = []
+    for j in range(N):
+        v = E.real(f"xb{j}")
+        E.assume(land(lbi[j] <= v, v <= ubi[j]))
+        xb.append(v)
+    nc = len(spec["calls"])
+    xba = arr(xb)
+    ev.obj(xba)
+    ev.obj_grad(xba)
+    if m:
+        ev.cons(xba)
+        ev.cons_jac(xba)
+    ev.lag_hess(xba, arr([E.real(f"yb{i}") for i in range(m)]))
+    okb = True
+    for (kind, xs, ys, site) in spec["calls"][nc:]:
+        okb = land(okb, common.in_box(xs, spec["xl"], spec["xu"]))
+    E.prove(okb, "C05.user_callbacks_see_points_inside_the_user_bounds")
     # start iterate: in the internal box whenever x0 is in the user's box
     x0 = []
     for j in range(n):
